@@ -11,6 +11,9 @@ as a function on character data with the law "text made of XML 1.0 characters su
 import XlModel.Lemmas.Bstr
 import XlModel.Lemmas.SaveGrid
 import XlModel.Lemmas.SaveGrid2
+import XlModel.Lemmas.SaveGrid3
+import XlModel.Lemmas.SaveCols
+import XlModel.Generated.FactsC01
 
 namespace XlModel.Props.C01
 open XlModel XlModel.Bstr XlModel.Grid
@@ -117,6 +120,36 @@ theorem witnesses_roundtrip :
     marshal "_x0041_x0042_".toList = "_x005F_x0041_x005F_x0042_".toList := by
   refine ⟨?_, ?_, ?_, ?_, ?_, ?_⟩ <;> (try rw [setstr_save_open_go]) <;> decide
 
+/-! ## column attributes: "row and column attributes" — `mergeExpandedCols` on every save -/
+
+/-- the comparison of `mergeExpandedCols` is a `reflect.DeepEqual` of all ten `xlsxCol` fields against
+the predecessor shifted by one column (regenerated from the composite literal in sheet.go); the model's
+`adj` compares `min`, `max` and the whole attribute record, i.e. exactly these fields. -/
+theorem facts_cols_ok :
+    Facts.C01.mergeColsFields = ["BestFit", "Collapsed", "CustomWidth", "Hidden", "Max", "Min",
+      "OutlineLevel", "Phonetic", "Style", "Width"] ∧ Facts.C01.mergeColsMaxFromLastMin = true := by decide
+
+/-- **save keeps every column's attributes**: for a flat `<cols>` list (one entry per column, as every
+column setter leaves it through `flatCols`), in any order-preserving position (`lo` = any bound below the
+first column), what `mergeExpandedCols` writes resolves every column — touched or not, any of the 16384 —
+to the same width, style, hidden flag, outline level and the other four attributes as before. Unbounded
+list length; induction over the list with the run invariant. -/
+theorem cols_merge_preserves (lo : Nat) (l : List SaveCols.Col) (h : SaveCols.FlatFrom lo l) (c : Nat) :
+    SaveCols.look (SaveCols.mergeCols l) c = SaveCols.look l c := by
+  unfold SaveCols.mergeCols
+  rw [SaveCols.sortCols_flat lo l h]
+  exact SaveCols.look_mergeSorted lo l h c
+
+/-- non-vacuity: equal neighbours do collapse into one range, a neighbour without width does not join -/
+theorem cols_merge_witness :
+    let a : SaveCols.Attrs := ⟨false, false, true, false, 1, false, 0, some ['3', '0']⟩
+    let b : SaveCols.Attrs := ⟨false, false, true, false, 1, false, 0, none⟩
+    SaveCols.mergeCols [⟨1, 1, a⟩, ⟨2, 2, a⟩, ⟨3, 3, b⟩] = [⟨1, 2, a⟩, ⟨3, 3, b⟩] ∧
+    SaveCols.FlatFrom 0 [⟨1, 1, a⟩, ⟨2, 2, a⟩, ⟨3, 3, b⟩] := by
+  intro a b
+  refine ⟨by decide, ?_⟩
+  simp [SaveCols.FlatFrom]
+
 /-! ## the grid: "serialisation never drops, reorders, retypes or alters anything" -/
 
 /-- save keeps every row slot, with its row number and all eleven attributes, in order -/
@@ -149,12 +182,12 @@ class, unbounded rows and columns; in particular such a sheet is a fixed point o
 theorem cycle_untrimmed_identity (s : List Row) (h : Dense s) (hu : ∀ row ∈ s, trimRowOne row = some row) :
     cycle s = .ok s := cycle_untrimmed s h hu
 
-/-- **trim_densify_obs (partial)**: for every dense sheet, if `checkRow` re-densifies each saved
-row to a dense row with the same content at every position (hypothesis `hrow`, the per-row
-crux: proved here only through the correspondence, see design.d/C01.md), then the whole
-save → open pipeline returns a dense sheet with the same content at *every* position, the same
-number of row slots, the same row numbers and the same row attributes. -/
-theorem trim_densify_obs_partial (s : List Row) (h : Dense s) (out : List (List Cell))
+/-- assembly step of `trim_densify_obs`: for every dense sheet, *if* `checkRow` re-densifies each saved
+row to a dense row with the same content at every position (hypotheses `hrow`, `hdense`, `hcontent`;
+discharged for every dense sheet by `Lemmas/SaveGrid3.lean`), then the whole save → open pipeline returns
+a dense sheet with the same content at every position, the same number of row slots, the same row
+numbers and the same row attributes. -/
+theorem trim_densify_assembly (s : List Row) (h : Dense s) (out : List (List Cell))
     (hl : out.length = s.length)
     (hrow : ∀ i (h1 : i < (trimRow s).length) (h2 : i < out.length),
       checkRowOne (i + 1) (trimRow s)[i].cells = .ok out[i])
@@ -199,6 +232,39 @@ theorem trim_densify_obs_partial (s : List Row) (h : Dense s) (out : List (List 
     · simp only [List.length_map, List.length_zipWith]; omega
     · intro i h1 h2
       simp [List.getElem_zipWith]
+
+/-- **trim_densify_obs** (full strength — the heart of "nothing dropped, reordered, retyped or
+altered"): for *every* dense sheet (any number of rows up to 1048576, any number of cells per row up
+to XFD, any mix of valued, styled, blank cells and row attributes) the save-time trim followed by the
+open-time re-densification succeeds and returns a sheet that is again dense (so every setter keeps
+working), has the same content at every position, the same number of row slots, the same row numbers
+and the same eleven row attributes. Induction over rows (`checkSheet`) and over cells (`checkRow`:
+`placeCells` over the compacted cells rebuilds the dense prefix up to the last valued cell). -/
+theorem trim_densify_obs (s : List Row) (h : Dense s) :
+    ∃ s', cycle s = .ok s' ∧ Dense s' ∧ (∀ i j, Grid.abs s' i j = Grid.abs s i j) ∧
+      s'.map (fun r => (r.r, r.attrs)) = s.map (fun r => (r.r, r.attrs)) := by
+  have hl : (trimRow s).length = s.length := trimRow_length s
+  have hlo : (reopened (trimRow s)).length = s.length := by simp [reopened, hl]
+  apply trim_densify_assembly s h (reopened (trimRow s)) hlo
+  · intro i h1 h2
+    obtain ⟨_, _, ho, _, _⟩ := reopened_spec s h i (by omega)
+    exact ho
+  · intro i h2
+    obtain ⟨_, _, _, hd, _⟩ := reopened_spec s h i (by omega)
+    exact hd
+  · intro i h1 h2 j
+    obtain ⟨_, _, _, _, hc⟩ := reopened_spec s h i h1
+    exact hc j
+
+/-- a second save/open cycle: the reopened sheet is dense again, so the theorem applies to it and the
+second cycle again preserves content, density and row attributes (fixed point of the observation). -/
+theorem trim_densify_second_cycle (s : List Row) (h : Dense s) :
+    ∃ s' s'', cycle s = .ok s' ∧ cycle s' = .ok s'' ∧ Dense s'' ∧
+      (∀ i j, Grid.abs s'' i j = Grid.abs s i j) ∧
+      s''.map (fun r => (r.r, r.attrs)) = s.map (fun r => (r.r, r.attrs)) := by
+  obtain ⟨s', h1, hd1, ha1, hm1⟩ := trim_densify_obs s h
+  obtain ⟨s'', h2, hd2, ha2, hm2⟩ := trim_densify_obs s' hd1
+  exact ⟨s', s'', h1, h2, hd2, fun i j => (ha2 i j).trans (ha1 i j), hm2.trans hm1⟩
 
 /-- FIXED FINDING (why a worksheet that stays cached across a save has to be re-densified, which
 `workSheetWriter` now does): `trimRow` alone breaks the representation invariant the setters
